@@ -1,6 +1,6 @@
 """C10 — equality, hashing, ordering and read-only identity are coherent."""
 import itertools, random
-from .. import core, hist, world as W
+from .. import core, hist, world as W, ref
 from .c01 import fix_disagreements
 
 MODULES = ['DsdVerif.Props.C10']
@@ -61,6 +61,11 @@ def run(res, proof):
         for cls in (0, 1):
             h = add('mk.cplx\t%d\tX%d\t-\t%s\t%s' % (cls, i, sq, st))
             if h is not None: cx.append(h)
+    # two copies of one strand with an asymmetric pairing: the base class sees one rotation first, the subclass the other
+    h = add('mk.cplx\t0\tP0\t-\th0 h1 + h0 h1\t(.+.)')
+    if h is not None: cx.append(h)
+    h = add('mk.cplx\t1\tP0\t-\th0 h1 + h0 h1\t.(+).')
+    if h is not None: cx.append(h)
     strands = []
     for i, sq in enumerate(['h0', 'h0 h1', 'h1 h0', 'h2']):
         for cls in (0, 1):
@@ -72,7 +77,8 @@ def run(res, proof):
         for cls in (0, 1, 3):
             # the same member set in every registry, each time named after another member (another representative)
             nm = iw.held[base_cx[sub[cls % len(sub)]]].name if cls else '-'
-            h = add('mk.macro\t%d\t%s\t%s' % (cls, nm, ' '.join('h%d' % base_cx[i] for i in sub)))
+            order = list(sub) if cls != 3 else list(reversed(sub))           # the sibling class lists the members the other way round
+            h = add('mk.macro\t%d\t%s\t%s' % (cls, nm, ' '.join('h%d' % base_cx[i] for i in order)))
             if h is not None: macros.append(h)
     rxns = []
     for (r, p) in [((0, 1), (2,)), ((1, 0), (3,)), ((0,), (1,)), ((0, 0), (2,)), ((2,), (0, 1))]:
@@ -93,6 +99,15 @@ def run(res, proof):
             cf = (lambda o: (o.name, o.length)) if kind == 'dom' else (lambda o: o.canonical_form)
             eq = cf(x) == cf(y)
             desc = {'pair': [repr(x), repr(y), type(x).__name__, type(y).__name__]}
+            # judged independently of the canonical form the library computed: the same rotation class (complexes),
+            # the same member set (macrostates)
+            ind = None
+            if kind == 'cplx' and x.structure is not None and y.structure is not None:
+                ind = (tuple(str(a) for a in y.sequence), tuple(y.structure)) in set(ref.rotations([str(a) for a in x.sequence], list(x.structure)))
+            elif kind == 'macro':
+                ind = {c.canonical_form for c in x.complexes} == {c.canonical_form for c in y.complexes} and len(x) == len(y)
+            if ind is not None and ind != (x == y):
+                res.violation('eq-iff-same-object-denoted:' + kind, desc, '== is %s' % (x == y), 'denote the same %s: %s' % (kind, ind))
             if (x == y) != eq:
                 res.violation('eq-iff-canonical-form:' + kind, desc, '== is %s' % (x == y), 'canonical forms equal: %s' % eq)
             if (x != y) != (not (x == y)):
